@@ -813,6 +813,1230 @@ theorem scanCut_rows (rs : List Rec) (h : ∀ r ∈ rs, RecOK r) (ns auth : Bool
       exact ⟨rfl, rfl⟩
 
 
+theorem anyT_append (a b : List Rec) (t : Nat) : anyT (a ++ b) t = (anyT a t || anyT b t) := by
+  simp [anyT, List.any_append]
+
+theorem isAuth_step (v : View) (fuel : Nat) (z : Bytes) (T U : List Rec)
+    (hT : ∀ r ∈ T, RecOK r) (hU : ∀ r ∈ U, RecOK r)
+    (htag : (if v.loc ≠ [0, 0] then v.store.get (v.loc ++ z) else []) = T.map rowOfRec)
+    (hunt : v.store.get ([0, 0] ++ z) = U.map rowOfRec) :
+    isAuthoritativeV1 v (fuel + 1) z false false =
+      if anyT (T ++ U) 2 = true then .ok ⟨true, anyT (T ++ U) 6, z⟩
+      else match z with
+        | [] => .panic
+        | n :: rest =>
+          if n = 0 then .ok ⟨false, anyT (T ++ U) 6, z⟩
+          else isAuthoritativeV1 v fuel (rest.drop n.toNat) false (anyT (T ++ U) 6) := by
+  rw [isAuthoritativeV1]
+  simp only []
+  rw [htag, scanCut_rows T hT]
+  simp only [Bool.false_or]
+  rw [anyT_append, anyT_append]
+  by_cases hc : ¬ (anyT T 6 = true ∧ anyT T 2 = true)
+  · rw [if_pos hc, hunt, scanCut_rows U hU]
+    simp only []
+    cases h : (anyT T 2 || anyT U 2) with
+    | true => simp
+    | false =>
+      simp only [Bool.false_eq_true, ↓reduceIte]
+      cases z <;> rfl
+  · rw [if_neg hc]
+    have hc' : anyT T 6 = true ∧ anyT T 2 = true := by
+      by_cases h : anyT T 6 = true ∧ anyT T 2 = true
+      · exact h
+      · exact absurd h hc
+    simp [hc'.1, hc'.2]
+
+/-- the owner of a visible SOA also owns a visible NS, in every client view -/
+def SoaHasNs (recs : List Rec) : Prop :=
+  ∀ r ∈ recs, r.type = 6 → r.wild = false →
+    ∃ r' ∈ recs, r'.owner = r.owner ∧ r'.wild = false ∧ r'.type = 2 ∧ (r'.loc = [0, 0] ∨ r'.loc = r.loc)
+
+instance (recs : List Rec) : Decidable (SoaHasNs recs) := by unfold SoaHasNs; infer_instance
+
+theorem hasT_eq_anyT (recs : List Rec) (l : Bytes) (a : List Bytes) (t : Nat) :
+    hasT recs l a t = anyT (visRecs recs l a) t := by
+  rw [Bool.eq_iff_iff, hasT_iff]
+  unfold anyT
+  rw [List.any_eq_true]
+  constructor
+  · rintro ⟨r, hr, ho, hw, ht, hv⟩
+    exact ⟨r, (mem_visRecs _ _ _ _).mpr ⟨hr, ho, hv⟩, by simp [hw, ht]⟩
+  · rintro ⟨r, hr, hp⟩
+    have := (mem_visRecs _ _ _ _).mp hr
+    simp only [decide_eq_true_eq] at hp
+    exact ⟨r, this.1, this.2.1, hp.1, hp.2, this.2.2⟩
+
+theorem soa_has_ns (recs : List Rec) (h : SoaHasNs recs) (l : Bytes) (a : List Bytes)
+    (h6 : hasT recs l a 6 = true) : hasT recs l a 2 = true := by
+  rw [hasT_iff] at h6 ⊢
+  obtain ⟨r, hr, ho, hw, ht, hv⟩ := h6
+  obtain ⟨r', hr', ho', hw', ht', hl'⟩ := h r hr ht hw
+  refine ⟨r', hr', ho'.trans ho, hw', ht', ?_⟩
+  unfold visible at hv ⊢
+  simp only [Bool.or_eq_true, decide_eq_true_eq] at hv ⊢
+  rcases hl' with h1 | h1
+  · exact Or.inl h1
+  · rcases hv with h2 | h2
+    · exact Or.inl (h1.trans h2)
+    · exact Or.inr (h1.trans h2)
+
+theorem recOK_visRecs {recs : List Rec} (hok : ∀ r ∈ recs, RecOK r) (l : Bytes) (ls : List Bytes) :
+    ∀ r ∈ visRecs recs l ls, RecOK r :=
+  fun r hr => hok r ((mem_visRecs _ _ _ _).mp hr).1
+
+theorem cutOf_nil (recs : List Rec) (l : Bytes) :
+    cutOf recs l [] = if hasT recs l [] 2 = true then some [] else none := by
+  unfold cutOf
+  simp only [Spec.ancestorsOrSelf, List.find?_cons, List.find?_nil]
+  cases hasT recs l [] 2 <;> rfl
+
+theorem cutOf_cons (recs : List Rec) (l : Bytes) (lab : Bytes) (rest : List Bytes) :
+    cutOf recs l (lab :: rest) =
+      if hasT recs l (lab :: rest) 2 = true then some (lab :: rest) else cutOf recs l rest := by
+  unfold cutOf
+  simp only [Spec.ancestorsOrSelf, List.find?_cons]
+  cases hasT recs l (lab :: rest) 2 <;> rfl
+
+theorem pack_cons_drop (lab : Bytes) (rest : List Bytes) (h : LabelOK lab) :
+    (lab ++ pack rest).drop (UInt8.ofNat lab.length).toNat = pack rest ∧
+    (lab ++ pack rest).take (UInt8.ofNat lab.length).toNat = lab := by
+  rw [h.len_byte.1]
+  simp
+
+/-- the zone-cut walk of the v1 reader finds the spec's cut -/
+theorem cut_walk (b : Backend) (s : Store) (recs : List Rec) (l : Bytes)
+    (h0 : RepresentsAt s recs [0, 0]) (hl : RepresentsAt s recs l)
+    (hok : ∀ r ∈ recs, RecOK r) (hsoa : SoaHasNs recs) :
+    ∀ (ls : List Bytes), NameOK ls → ∀ fuel, ls.length < fuel →
+      isAuthoritativeV1 ⟨b, s, l⟩ fuel (pack ls) false false =
+        .ok (match cutOf recs l ls with
+             | some c => ⟨true, hasT recs l c 6, pack c⟩
+             | none => ⟨false, false, [0]⟩) := by
+  intro ls
+  induction ls with
+  | nil =>
+    intro hn fuel hf
+    obtain ⟨fuel, rfl⟩ : ∃ f, fuel = f + 1 := ⟨fuel - 1, by omega⟩
+    rw [isAuth_step ⟨b, s, l⟩ fuel (pack []) _ _
+      (fun r hr => recOK_visRecs hok l [] r (List.mem_append_left _ hr))
+      (fun r hr => recOK_visRecs hok l [] r (List.mem_append_right _ hr))
+      (by
+        show (if l ≠ [0, 0] then s.get (l ++ pack []) else []) = _
+        by_cases h : l ≠ [0, 0]
+        · rw [if_pos h, if_pos h, hl [] hn]
+        · rw [if_neg h, if_neg h]; rfl)
+      (h0 [] hn)]
+    have e : ∀ t, anyT ((if l ≠ [0, 0] then recsAt recs [] l else []) ++ recsAt recs [] [0, 0]) t
+        = hasT recs l [] t := fun t => (hasT_eq_anyT recs l [] t).symm
+    rw [e 2, e 6, cutOf_nil]
+    by_cases h2 : hasT recs l [] 2 = true
+    · rw [if_pos h2, if_pos h2]
+    · rw [if_neg h2, if_neg h2]
+      have h6 : hasT recs l [] 6 = false := by
+        cases h : hasT recs l [] 6 with
+        | false => rfl
+        | true => exact absurd (soa_has_ns recs hsoa l [] h) h2
+      rw [h6]
+      rfl
+  | cons lab rest ih =>
+    intro hn fuel hf
+    obtain ⟨fuel, rfl⟩ : ∃ f, fuel = f + 1 := ⟨fuel - 1, by omega⟩
+    rw [isAuth_step ⟨b, s, l⟩ fuel (pack (lab :: rest)) _ _
+      (fun r hr => recOK_visRecs hok l (lab :: rest) r (List.mem_append_left _ hr))
+      (fun r hr => recOK_visRecs hok l (lab :: rest) r (List.mem_append_right _ hr))
+      (by
+        show (if l ≠ [0, 0] then s.get (l ++ pack (lab :: rest)) else []) = _
+        by_cases h : l ≠ [0, 0]
+        · rw [if_pos h, if_pos h, hl _ hn]
+        · rw [if_neg h, if_neg h]; rfl)
+      (h0 _ hn)]
+    have e : ∀ t, anyT ((if l ≠ [0, 0] then recsAt recs (lab :: rest) l else [])
+        ++ recsAt recs (lab :: rest) [0, 0]) t = hasT recs l (lab :: rest) t :=
+      fun t => (hasT_eq_anyT recs l (lab :: rest) t).symm
+    rw [e 2, e 6, cutOf_cons]
+    by_cases h2 : hasT recs l (lab :: rest) 2 = true
+    · rw [if_pos h2, if_pos h2]
+    · rw [if_neg h2, if_neg h2]
+      have h6 : hasT recs l (lab :: rest) 6 = false := by
+        cases h : hasT recs l (lab :: rest) 6 with
+        | false => rfl
+        | true => exact absurd (soa_has_ns recs hsoa l _ h) h2
+      rw [h6, pack_cons]
+      simp only []
+      rw [if_neg hn.head.len_byte.2, (pack_cons_drop lab rest hn.head).1]
+      exact ih hn.tail fuel (by simp at hf; omega)
+
+/-! ### the answer walk -/
+
+def matchQ (qt : Nat) (r : Rec) : Bool := decide (r.type = 5 ∨ r.type = qt ∨ qt = 255)
+
+/-- what `FindAnswer` holds after finding the records `rs` at one level -/
+def ansOf (qn : Bytes) (qt : Nat) (rs : List Rec) : Ans :=
+  { rrs := ((rs.filter (matchQ qt)).filter fun r => r.type ≠ 1 ∧ r.type ≠ 28).map fun r =>
+      (⟨qn, r.type, 1, r.ttl, r.rdata⟩ : RR),
+    a4 := ((rs.filter (matchQ qt)).filter (·.type = 1)).map fun r => (⟨r.ttl, r.weight, r.rdata⟩ : Cand),
+    a6 := ((rs.filter (matchQ qt)).filter (·.type = 28)).map fun r => (⟨r.ttl, r.weight, r.rdata⟩ : Cand),
+    recordFound := !rs.isEmpty }
+
+def addAns (acc x : Ans) : Ans :=
+  ⟨acc.rrs ++ x.rrs, acc.a4 ++ x.a4, acc.a6 ++ x.a6, acc.recordFound || x.recordFound⟩
+
+def stepAns (qn : Bytes) (qt : Nat) (a0 : Ans) (r : Row) : Ans :=
+  let a := { a0 with recordFound := true }
+  if r.qtype = 5 ∨ r.qtype = qt ∨ qt = 255 then
+    if r.qtype = 1 then { a with a4 := a.a4 ++ [⟨r.ttl, r.weight, r.rdata⟩] }
+    else if r.qtype = 28 then { a with a6 := a.a6 ++ [⟨r.ttl, r.weight, r.rdata⟩] }
+    else { a with rrs := a.rrs ++ [⟨qn, r.qtype, 1, r.ttl, r.rdata⟩] }
+  else a
+
+theorem scanAnswer_cons (row : Bytes) (rows : List Bytes) (w : Bool) (qn : Bytes) (qt : Nat) (acc : Ans) :
+    scanAnswer (row :: rows) w qn qt acc =
+      match extractRR row w with
+      | .panic => none
+      | .mismatch => scanAnswer rows w qn qt acc
+      | .row r => scanAnswer rows w qn qt (stepAns qn qt acc r) := by
+  unfold scanAnswer
+  rw [List.foldlM_cons]
+  cases h : extractRR row w with
+  | panic => rfl
+  | mismatch => rfl
+  | row r =>
+    simp only [stepAns]
+    by_cases hm : r.qtype = 5 ∨ r.qtype = qt ∨ qt = 255
+    · simp only [if_pos hm]
+      by_cases h1 : r.qtype = 1
+      · simp only [if_pos h1]; rfl
+      · simp only [if_neg h1]
+        by_cases h28 : r.qtype = 28
+        · simp only [if_pos h28]; rfl
+        · simp only [if_neg h28]; rfl
+    · simp only [if_neg hm]; rfl
+
+theorem addAns_step (qn : Bytes) (qt : Nat) (acc : Ans) (r : Rec) (L : List Rec) :
+    addAns (stepAns qn qt acc (rowFields r)) (ansOf qn qt L) = addAns acc (ansOf qn qt (r :: L)) := by
+  unfold stepAns addAns ansOf
+  have hq : (rowFields r).qtype = r.type := rfl
+  simp only [hq]
+  by_cases hm : r.type = 5 ∨ r.type = qt ∨ qt = 255
+  · have hmq : matchQ qt r = true := by simp [matchQ, hm]
+    rw [if_pos hm, List.filter_cons_of_pos hmq]
+    by_cases h1 : r.type = 1
+    · rw [if_pos h1, List.filter_cons_of_neg (by simp [h1]), List.filter_cons_of_pos (by simp [h1]),
+        List.filter_cons_of_neg (by simp [h1])]
+      simp [rowFields, h1]
+    · rw [if_neg h1]
+      by_cases h28 : r.type = 28
+      · rw [if_pos h28, List.filter_cons_of_neg (by simp [h28]), List.filter_cons_of_neg (by simp [h28]),
+          List.filter_cons_of_pos (by simp [h28])]
+        simp [rowFields, h28]
+      · rw [if_neg h28, List.filter_cons_of_pos (by simp [h1, h28]), List.filter_cons_of_neg (by simp [h1]),
+          List.filter_cons_of_neg (by simp [h28])]
+        simp [rowFields]
+  · have hmq : ¬ matchQ qt r = true := by simp [matchQ, hm]
+    rw [if_neg hm, List.filter_cons_of_neg hmq]
+    simp
+
+
+theorem addAns_nil (qn : Bytes) (qt : Nat) (acc : Ans) : addAns acc (ansOf qn qt []) = acc := by
+  cases acc; simp [addAns, ansOf]
+
+theorem addAns_empty (x : Ans) : addAns {} x = x := by
+  cases x; simp [addAns]
+
+theorem scanAnswer_rows (rs : List Rec) (h : ∀ r ∈ rs, RecOK r) (w : Bool) (qn : Bytes) (qt : Nat) (acc : Ans) :
+    scanAnswer (rs.map rowOfRec) w qn qt acc =
+      some (addAns acc (ansOf qn qt (rs.filter fun r => r.wild = w))) := by
+  induction rs generalizing acc with
+  | nil =>
+    rw [List.filter_nil, addAns_nil]; rfl
+  | cons r rs ih =>
+    have ih' := fun acc => ih (fun x hx => h x (List.mem_cons_of_mem _ hx)) acc
+    rw [List.map_cons, scanAnswer_cons, extractRR_rowOfRec r (h r (by simp))]
+    by_cases hw : w ≠ r.wild
+    · rw [if_pos hw]
+      simp only []
+      rw [ih', List.filter_cons_of_neg (by simpa using fun h => hw h.symm)]
+    · rw [if_neg hw]
+      simp only []
+      rw [ih', List.filter_cons_of_pos (by simp only [decide_eq_true_eq]; exact (Decidable.of_not_not hw).symm), addAns_step]
+        
+theorem scanAnswer_append (a b : List Bytes) (w : Bool) (qn : Bytes) (qt : Nat) (acc : Ans) :
+    scanAnswer (a ++ b) w qn qt acc = (scanAnswer a w qn qt acc).bind fun x => scanAnswer b w qn qt x := by
+  unfold scanAnswer
+  rw [List.foldlM_append]
+  rfl
+
+theorem findAnswerV1_succ (v : View) (control qn : Bytes) (qt fuel : Nat) (q : Bytes) (w : Bool) (acc : Ans) :
+    findAnswerV1 v control qn qt (fuel + 1) q w acc =
+      (let tagged := if v.loc ≠ [0, 0] then v.store.get (v.loc ++ q) else []
+       let acc1 := (scanAnswer tagged w qn qt acc).getD acc
+       let acc2 := (scanAnswer (v.store.get ([0, 0] ++ q)) w qn qt acc1).getD acc1
+       if acc2.recordFound then acc2
+       else if q = control then acc2
+       else match q with
+         | [] => acc2
+         | n :: rest =>
+           if n = 0 then acc2
+           else if ¬ wildsafe (rest.take n.toNat) then acc2
+           else findAnswerV1 v control qn qt fuel (rest.drop n.toNat) true acc2) := by
+  cases q with
+  | nil => rw [findAnswerV1.eq_2]
+  | cons n rest => rw [findAnswerV1.eq_3]
+
+theorem findAnswer_step (v : View) (control qn : Bytes) (qt fuel : Nat) (q : Bytes) (w : Bool)
+    (T U : List Rec) (hT : ∀ r ∈ T, RecOK r) (hU : ∀ r ∈ U, RecOK r)
+    (htag : (if v.loc ≠ [0, 0] then v.store.get (v.loc ++ q) else []) = T.map rowOfRec)
+    (hunt : v.store.get ([0, 0] ++ q) = U.map rowOfRec) :
+    findAnswerV1 v control qn qt (fuel + 1) q w {} =
+      if ((T ++ U).filter fun r => r.wild = w) ≠ [] then ansOf qn qt ((T ++ U).filter fun r => r.wild = w)
+      else if q = control then {}
+      else match q with
+        | [] => {}
+        | n :: rest =>
+          if n = 0 then {}
+          else if ¬ wildsafe (rest.take n.toNat) then {}
+          else findAnswerV1 v control qn qt fuel (rest.drop n.toNat) true {} := by
+  rw [findAnswerV1_succ]
+  simp only []
+  have h1 := scanAnswer_rows T hT w qn qt {}
+  have h2 := scanAnswer_rows U hU w qn qt (addAns {} (ansOf qn qt (T.filter fun r => r.wild = w)))
+  have h12 := scanAnswer_rows (T ++ U) (by
+    intro r hr; rcases List.mem_append.mp hr with h | h
+    · exact hT r h
+    · exact hU r h) w qn qt {}
+  rw [List.map_append, scanAnswer_append, h1, Option.bind_some, h2] at h12
+  rw [htag, h1, hunt]
+  simp only [Option.getD_some]
+  rw [h2]
+  simp only [Option.getD_some]
+  rw [Option.some.inj h12, addAns_empty]
+  by_cases hL : ((T ++ U).filter fun r => r.wild = w) ≠ []
+  · rw [if_pos hL, if_pos (by simpa [ansOf, List.isEmpty_iff] using hL)]
+  · rw [if_neg hL]
+    have hL' : ((T ++ U).filter fun r => r.wild = w) = [] := by
+      by_cases h : ((T ++ U).filter fun r => r.wild = w) = []
+      · exact h
+      · exact absurd h hL
+    rw [hL', if_neg (by simp [ansOf])]
+    have : ansOf qn qt [] = {} := rfl
+    rw [this]
+
+/-- the order in which a client in location `l` meets the records: those tagged `l` first (a stable
+partition of the file order; records of other locations stay, invisible) -/
+def viewSort (l : Bytes) (recs : List Rec) : List Rec :=
+  recs.filter (fun r => r.loc = l) ++ recs.filter (fun r => r.loc ≠ l)
+
+theorem filter_viewSort (recs : List Rec) (l : Bytes) (a : List Bytes) (f P : Rec → Bool)
+    (hf : ∀ r, f r = (decide (r.owner = a) && (P r && visible l r))) :
+    (viewSort l recs).filter f = (visRecs recs l a).filter P := by
+  unfold viewSort visRecs recsAt
+  rw [List.filter_append, List.filter_append, List.filter_filter, List.filter_filter, List.filter_filter]
+  by_cases hl : l = [0, 0]
+  · subst hl
+    rw [if_neg (by simp)]
+    have h2 : recs.filter (fun r => f r && decide (r.loc ≠ [0, 0])) = [] := by
+      rw [List.filter_eq_nil_iff]
+      intro r _
+      rw [hf]
+      by_cases h : r.loc = [0, 0] <;> simp [visible, h]
+    rw [h2, List.filter_nil, List.nil_append, List.append_nil]
+    apply List.filter_congr
+    intro r _
+    rw [hf]
+    cases hP : P r <;> by_cases ho : r.owner = a <;> by_cases h : r.loc = [0, 0] <;> simp [visible, ho, h]
+  · rw [if_pos hl, List.filter_filter]
+    congr 1
+    · apply List.filter_congr
+      intro r _
+      rw [hf]
+      cases hP : P r <;> by_cases ho : r.owner = a <;> by_cases h : r.loc = l <;> simp [visible, ho, h]
+    · apply List.filter_congr
+      intro r _
+      rw [hf]
+      cases hP : P r <;> by_cases ho : r.owner = a <;> by_cases h : r.loc = l <;>
+        by_cases h0 : r.loc = [0, 0] <;> simp [visible, ho, h, h0]
+      all_goals (first | exact hl | (exact fun e => hl e.symm) | (exact absurd (h.symm.trans h0) hl))
+
+theorem levelRecs_eq (recs : List Rec) (l : Bytes) (a : List Bytes) (w : Bool) :
+    (viewSort l recs).filter (fun r => decide (r.owner = a ∧ r.wild = w ∧ visible l r = true))
+      = (visRecs recs l a).filter (fun r => decide (r.wild = w)) :=
+  filter_viewSort recs l a _ _ (by intro r; simp [Bool.decide_and])
+
+theorem wildRecs_eq (recs : List Rec) (l : Bytes) (a : List Bytes) :
+    (viewSort l recs).filter (fun r => decide (r.owner = a ∧ r.wild = true ∧ visible l r = true))
+      = (visRecs recs l a).filter (fun r => decide (r.wild = true)) := levelRecs_eq recs l a true
+
+theorem ownRecs_eq (recs : List Rec) (l : Bytes) (a : List Bytes) :
+    (viewSort l recs).filter (fun r => decide (r.owner = a ∧ ¬ r.wild = true ∧ visible l r = true))
+      = (visRecs recs l a).filter (fun r => decide (r.wild = false)) :=
+  filter_viewSort recs l a _ _ (by intro r; simp [Bool.decide_and])
+
+theorem tagged_rows (s : Store) (recs : List Rec) (l : Bytes) (ls : List Bytes)
+    (hl : RepresentsAt s recs l) (hn : NameOK ls) :
+    (if l ≠ [0, 0] then s.get (l ++ pack ls) else [])
+      = (if l ≠ [0, 0] then recsAt recs ls l else []).map rowOfRec := by
+  by_cases h : l ≠ [0, 0]
+  · rw [if_pos h, if_pos h, hl ls hn]
+  · rw [if_neg h, if_neg h]; rfl
+
+/-- the answer walk of the v1 reader: own records, else the closest covering wildcard -/
+theorem findAnswer_walk (b : Backend) (s : Store) (recs : List Rec) (l : Bytes)
+    (h0 : RepresentsAt s recs [0, 0]) (hl : RepresentsAt s recs l) (hok : ∀ r ∈ recs, RecOK r)
+    (cut : List Bytes) (hcut : ∀ x ∈ cut, LabelOK x) (qn : Bytes) (qt : Nat) :
+    ∀ (ls : List Bytes), NameOK ls → ∀ fuel, ls.length < fuel → ∀ w : Bool,
+      findAnswerV1 ⟨b, s, l⟩ (pack cut) qn qt fuel (pack ls) w {} =
+        ansOf qn qt
+          (if ((visRecs recs l ls).filter fun r => decide (r.wild = w)) ≠ []
+           then (visRecs recs l ls).filter fun r => decide (r.wild = w)
+           else recordsFor.up (viewSort l recs) l cut ls) := by
+  intro ls
+  induction ls with
+  | nil =>
+    intro hn fuel hf w
+    obtain ⟨fuel, rfl⟩ : ∃ f, fuel = f + 1 := ⟨fuel - 1, by omega⟩
+    rw [findAnswer_step ⟨b, s, l⟩ (pack cut) qn qt fuel (pack []) w _ _
+      (fun r hr => recOK_visRecs hok l [] r (List.mem_append_left _ hr))
+      (fun r hr => recOK_visRecs hok l [] r (List.mem_append_right _ hr))
+      (tagged_rows s recs l [] hl hn) (h0 [] hn)]
+    show (if ((visRecs recs l []).filter fun r => decide (r.wild = w)) ≠ [] then _ else _) = _
+    by_cases hL : ((visRecs recs l []).filter fun r => decide (r.wild = w)) ≠ []
+    · rw [if_pos hL, if_pos hL]; rfl
+    · rw [if_neg hL, if_neg hL, up_nil]
+      have e : ansOf qn qt [] = {} := rfl
+      rw [e]
+      by_cases hc : pack [] = pack cut
+      · rw [if_pos hc]
+      · rw [if_neg hc]; rfl
+  | cons lab rest ih =>
+    intro hn fuel hf w
+    obtain ⟨fuel, rfl⟩ : ∃ f, fuel = f + 1 := ⟨fuel - 1, by omega⟩
+    rw [findAnswer_step ⟨b, s, l⟩ (pack cut) qn qt fuel (pack (lab :: rest)) w _ _
+      (fun r hr => recOK_visRecs hok l (lab :: rest) r (List.mem_append_left _ hr))
+      (fun r hr => recOK_visRecs hok l (lab :: rest) r (List.mem_append_right _ hr))
+      (tagged_rows s recs l _ hl hn) (h0 _ hn)]
+    show (if ((visRecs recs l (lab :: rest)).filter fun r => decide (r.wild = w)) ≠ [] then _ else _) = _
+    by_cases hL : ((visRecs recs l (lab :: rest)).filter fun r => decide (r.wild = w)) ≠ []
+    · rw [if_pos hL, if_pos hL]; rfl
+    · rw [if_neg hL, if_neg hL, up_cons]
+      have e : ansOf qn qt [] = {} := rfl
+      by_cases hc : pack (lab :: rest) = pack cut
+      · rw [if_pos hc, if_pos (pack_injective _ _ hn.1 hcut hc), e]
+      · rw [if_neg hc, if_neg (fun h => hc (by rw [h]))]
+        rw [pack_cons]
+        simp only []
+        rw [if_neg hn.head.len_byte.2, (pack_cons_drop lab rest hn.head).1, (pack_cons_drop lab rest hn.head).2]
+        by_cases hws : ¬ wildsafe lab = true
+        · rw [if_pos hws, if_pos (by simpa [wildsafeLabel] using hws), e]
+        · rw [if_neg hws, if_neg (by simpa [wildsafeLabel] using hws)]
+          rw [ih hn.tail fuel (by simp at hf; omega) true, wildRecs_eq]
+          congr 1
+          by_cases hW : ((visRecs recs l rest).filter fun r => decide (r.wild = true)) ≠ []
+          · rw [if_pos hW, if_pos (by simpa [List.isEmpty_iff] using hW)]
+          · rw [if_neg hW, if_neg (by simpa [List.isEmpty_iff] using hW)]
+
+theorem findAnswer_recordsFor (b : Backend) (s : Store) (recs : List Rec) (l : Bytes)
+    (h0 : RepresentsAt s recs [0, 0]) (hl : RepresentsAt s recs l) (hok : ∀ r ∈ recs, RecOK r)
+    (cut : List Bytes) (hcut : ∀ x ∈ cut, LabelOK x) (qn : Bytes) (qt : Nat)
+    (q : List Bytes) (hq : NameOK q) (fuel : Nat) (hf : q.length < fuel) :
+    findAnswerV1 ⟨b, s, l⟩ (pack cut) qn qt fuel (pack q) false {} =
+      ansOf qn qt (recordsFor (viewSort l recs) l q cut) := by
+  rw [findAnswer_walk b s recs l h0 hl hok cut hcut qn qt q hq fuel hf false, recordsFor_eq, ownRecs_eq]
+  congr 1
+  by_cases hW : ((visRecs recs l q).filter fun r => decide (r.wild = false)) ≠ []
+  · rw [if_pos hW, if_pos (by simpa [List.isEmpty_iff] using hW)]
+  · rw [if_neg hW, if_neg (by simpa [List.isEmpty_iff] using hW)]
+
+/-! ### authority section -/
+
+theorem rowsOf_v1 (b : Backend) (hb : b ≠ .rdbV2) (s : Store) (recs : List Rec) (l : Bytes)
+    (h0 : RepresentsAt s recs [0, 0]) (hl : RepresentsAt s recs l) (ls : List Bytes) (hn : NameOK ls) :
+    rowsOf ⟨b, s, l⟩ (pack ls) = (visRecs recs l ls).map rowOfRec := by
+  have hv : (⟨b, s, l⟩ : View).v2 = false := by simp [View.v2, hb]
+  unfold rowsOf rrKey
+  simp only [hv, Bool.false_eq_true, ↓reduceIte, Option.map_some, Option.getD_some]
+  exact rows_visRecs s recs l ls h0 hl hn
+
+def soaP (r : Rec) : Bool := decide (r.wild = false ∧ r.type = 6)
+def nsP (r : Rec) : Bool := decide (r.wild = false ∧ r.type = 2)
+
+theorem findSome_soa (rs : List Rec) (h : ∀ r ∈ rs, RecOK r) :
+    ((rs.map rowOfRec).findSome? fun row =>
+      match extractRR row false with
+      | .row r => if r.qtype = 6 then some r else none
+      | _ => none) = (rs.find? soaP).map rowFields := by
+  induction rs with
+  | nil => rfl
+  | cons r rs ih =>
+    rw [List.map_cons, List.findSome?_cons, extractRR_rowOfRec r (h r (by simp)),
+      ih (fun x hx => h x (List.mem_cons_of_mem _ hx)), List.find?_cons]
+    cases hw : r.wild with
+    | true => simp [soaP, hw]
+    | false =>
+      by_cases h6 : r.type = 6
+      · simp [soaP, hw, h6, rowFields]
+      · simp [soaP, hw, h6, rowFields]
+
+theorem findSOA_v1 (b : Backend) (hb : b ≠ .rdbV2) (s : Store) (recs : List Rec) (l : Bytes)
+    (h0 : RepresentsAt s recs [0, 0]) (hl : RepresentsAt s recs l) (hok : ∀ r ∈ recs, RecOK r)
+    (cut : List Bytes) (hn : NameOK cut) :
+    findSOA ⟨b, s, l⟩ (pack cut) =
+      match (visRecs recs l cut).find? soaP with
+      | some r => [⟨pack cut, 6, 1, r.ttl, r.rdata⟩]
+      | none => [] := by
+  unfold findSOA
+  rw [rowsOf_v1 b hb s recs l h0 hl cut hn]
+  have e := findSome_soa _ (recOK_visRecs hok l cut)
+  refine Eq.trans (congrArg (fun o : Option Row => match o with
+    | some r => [(⟨pack cut, 6, 1, r.ttl, r.rdata⟩ : RR)]
+    | none => []) e) ?_
+  cases (visRecs recs l cut).find? soaP <;> rfl
+
+/-- non-wildcard NS rdata is exactly one well-formed name -/
+def NsParse (recs : List Rec) : Prop :=
+  ∀ r ∈ recs, r.type = 2 → r.wild = false → nameAt r.rdata = some r.rdata
+
+instance (recs : List Rec) : Decidable (NsParse recs) := by unfold NsParse; infer_instance
+
+theorem filterMap_ns (rs : List Rec) (h : ∀ r ∈ rs, RecOK r)
+    (hns : ∀ r ∈ rs, r.type = 2 → r.wild = false → nameAt r.rdata = some r.rdata) (z : Bytes) (cls : Nat) :
+    ((rs.map rowOfRec).filterMap fun row =>
+      match extractRR row false with
+      | .row r => if r.qtype = 2 then (nameAt r.rdata).map fun n => (⟨z, 2, cls, r.ttl, n⟩ : RR) else none
+      | _ => none) = (rs.filter nsP).map fun r => (⟨z, 2, cls, r.ttl, r.rdata⟩ : RR) := by
+  induction rs with
+  | nil => rfl
+  | cons r rs ih =>
+    rw [List.map_cons, List.filterMap_cons, extractRR_rowOfRec r (h r (by simp)),
+      ih (fun x hx => h x (List.mem_cons_of_mem _ hx)) (fun x hx => hns x (List.mem_cons_of_mem _ hx))]
+    cases hw : r.wild with
+    | true => simp [nsP, hw]
+    | false =>
+      by_cases h2 : r.type = 2
+      · have := hns r (by simp) h2 hw
+        simp [nsP, hw, h2, rowFields, this]
+      · simp [nsP, hw, h2, rowFields]
+
+theorem getNs_v1 (b : Backend) (hb : b ≠ .rdbV2) (s : Store) (recs : List Rec) (l : Bytes)
+    (h0 : RepresentsAt s recs [0, 0]) (hl : RepresentsAt s recs l) (hok : ∀ r ∈ recs, RecOK r)
+    (hns : NsParse recs) (cut : List Bytes) (hn : NameOK cut) (cls : Nat) :
+    getNs ⟨b, s, l⟩ (pack cut) cls =
+      ((visRecs recs l cut).filter nsP).map fun r => (⟨pack cut, 2, cls, r.ttl, r.rdata⟩ : RR) := by
+  unfold getNs
+  rw [rowsOf_v1 b hb s recs l h0 hl cut hn]
+  exact filterMap_ns _ (recOK_visRecs hok l cut)
+    (fun r hr => hns r ((mem_visRecs _ _ _ _).mp hr).1) _ _
+
+
+theorem find?_congr' {α : Type} {p q : α → Bool} : ∀ {l : List α}, (∀ x ∈ l, p x = q x) → l.find? p = l.find? q
+  | [], _ => rfl
+  | a :: l, h => by
+    rw [List.find?_cons, List.find?_cons, h a (by simp),
+      find?_congr' (fun x hx => h x (List.mem_cons_of_mem _ hx))]
+
+theorem find_viewSort (recs : List Rec) (l : Bytes) (a : List Bytes) (f P : Rec → Bool)
+    (hf : ∀ r, f r = (decide (r.owner = a) && (P r && visible l r))) :
+    (viewSort l recs).find? f = (visRecs recs l a).find? P := by
+  rw [← List.head?_filter, ← List.head?_filter, filter_viewSort recs l a f P hf]
+
+theorem soaOf_viewSort (recs : List Rec) (l : Bytes) (cut : List Bytes) :
+    soaOf (viewSort l recs) l cut =
+      match (visRecs recs l cut).find? soaP with
+      | some r => [⟨cut, 6, 1, r.ttl, r.rdata⟩]
+      | none => [] := by
+  have h2 : (viewSort l recs).find? (fun r => decide (r.owner = cut ∧ ¬ r.wild = true ∧ r.type = 6 ∧ visible l r = true))
+      = (visRecs recs l cut).find? soaP :=
+    find_viewSort recs l cut _ soaP (by intro r; simp [soaP, Bool.decide_and, Bool.and_assoc])
+  have h1 : ∀ r, (viewSort l recs).find? (fun r => decide (r.owner = cut ∧ ¬ r.wild = true ∧ r.type = 6 ∧
+      visible l r = true ∧ r.loc = l ∧ l ≠ [0, 0])) = some r → (visRecs recs l cut).find? soaP = some r := by
+    intro r hr
+    rw [← h2]
+    by_cases hl : l = [0, 0]
+    · rw [List.find?_eq_some_iff_append] at hr
+      simp [hl] at hr
+    · unfold viewSort at hr ⊢
+      rw [List.find?_append] at hr ⊢
+      have hB : (recs.filter fun r => decide (r.loc ≠ l)).find? (fun r => decide (r.owner = cut ∧ ¬ r.wild = true ∧
+          r.type = 6 ∧ visible l r = true ∧ r.loc = l ∧ l ≠ [0, 0])) = none := by
+        rw [List.find?_eq_none]
+        intro x hx
+        have := (List.mem_filter.mp hx).2
+        simp only [decide_eq_true_eq] at this
+        simp [this]
+      rw [hB, Option.or_none] at hr
+      have hA : (recs.filter fun r => decide (r.loc = l)).find? (fun r => decide (r.owner = cut ∧ ¬ r.wild = true ∧
+          r.type = 6 ∧ visible l r = true ∧ r.loc = l ∧ l ≠ [0, 0])) =
+          (recs.filter fun r => decide (r.loc = l)).find? (fun r => decide (r.owner = cut ∧ ¬ r.wild = true ∧
+          r.type = 6 ∧ visible l r = true)) := by
+        apply find?_congr'
+        intro x hx
+        have := (List.mem_filter.mp hx).2
+        simp only [decide_eq_true_eq] at this
+        simp [this, hl]
+      rw [hA] at hr
+      rw [hr]
+      rfl
+  unfold soaOf
+  cases hf1 : (viewSort l recs).find? (fun r => decide (r.owner = cut ∧ ¬ r.wild = true ∧ r.type = 6 ∧
+      visible l r = true ∧ r.loc = l ∧ l ≠ [0, 0])) with
+  | some r => rw [h1 r hf1]
+  | none =>
+    simp only []; rw [h2]
+    try (cases (visRecs recs l cut).find? soaP <;> rfl)
+
+theorem nsOf_viewSort (recs : List Rec) (l : Bytes) (qclass : Nat) (cut : List Bytes) :
+    nsOf (viewSort l recs) l qclass cut =
+      ((visRecs recs l cut).filter nsP).map fun r => ⟨cut, 2, qclass, r.ttl, r.rdata⟩ := by
+  unfold nsOf
+  rw [filter_viewSort recs l cut _ nsP (by intro r; simp [nsP, Bool.decide_and, Bool.and_assoc])]
+
+theorem mem_viewSort (l : Bytes) (recs : List Rec) (r : Rec) : r ∈ viewSort l recs ↔ r ∈ recs := by
+  unfold viewSort
+  by_cases h : r.loc = l <;> simp [h]
+
+theorem hasT_viewSort (recs : List Rec) (l : Bytes) (a : List Bytes) (t : Nat) :
+    hasT (viewSort l recs) l a t = hasT recs l a t := by
+  rw [Bool.eq_iff_iff, hasT_iff, hasT_iff]
+  constructor
+  · rintro ⟨r, hr, h⟩; exact ⟨r, (mem_viewSort l recs r).mp hr, h⟩
+  · rintro ⟨r, hr, h⟩; exact ⟨r, (mem_viewSort l recs r).mpr hr, h⟩
+
+theorem cutOf_viewSort (recs : List Rec) (l : Bytes) (q : List Bytes) :
+    cutOf (viewSort l recs) l q = cutOf recs l q := by
+  unfold cutOf
+  congr 1
+  funext a
+  exact hasT_viewSort recs l a 2
+
+theorem cutAuth_viewSort (recs : List Rec) (l : Bytes) (q : List Bytes) (qtype : Nat) (cut0 : List Bytes) :
+    cutAuth (viewSort l recs) l q qtype cut0 = cutAuth recs l q qtype cut0 := by
+  unfold cutAuth
+  simp only [hasT_viewSort, cutOf_viewSort]
+
+/-! ### the handler -/
+
+def ofSpecRR (r : OutRR) : RR := ⟨pack r.owner, r.type, r.cls, r.ttl, r.rdata⟩
+def ofSpecGroup (g : OutAddrs) : AddrGroup :=
+  ⟨pack g.owner, g.type, g.cls, g.cands.map fun c => ⟨c.1, c.2.1, c.2.2⟩, g.max⟩
+/-- `Spec.Answer` rendered as the model's response (owners packed) -/
+def ofSpec (a : Answer) : Response :=
+  ⟨a.rcode, a.aa, a.answer.map ofSpecRR, a.answerAddrs.map ofSpecGroup, a.authority.map ofSpecRR,
+   a.additional.map ofSpecGroup⟩
+
+/-- the part of `serve` after the zone cut is settled -/
+def serveTail (v : View) (q : Query) (cut : Cut) : Outcome :=
+  match (if cut.zoneCut.isEmpty then none else some ()) with
+  | none => .panic
+  | some _ =>
+  let ans : R Ans :=
+    if cut.auth then
+      if v.v2 then findAnswerV2 v q.qname cut.zoneCut q.qnameOut q.qtype
+      else .ok (findAnswerV1 v cut.zoneCut q.qnameOut q.qtype (q.qname.length + 1) q.qname false {})
+    else .ok {}
+  match ans with
+  | .panic => .panic
+  | .err => .noReply
+  | .ok a =>
+    let groups : List AddrGroup :=
+      (if a.a4.isEmpty then [] else [⟨q.qnameOut, 1, 1, a.a4, q.maxAns⟩])
+      ++ (if a.a6.isEmpty then [] else [⟨q.qnameOut, 28, 1, a.a6, q.maxAns⟩])
+    let served (g : AddrGroup) : Bool := g.cands.any fun c => c.weight > 0
+    let answerEmpty := a.rrs.isEmpty ∧ ¬ groups.any served
+    let rcode := if cut.auth ∧ answerEmpty ∧ ¬ a.recordFound then 3 else 0
+    let hasNsAnswer := a.rrs.any fun rr => rr.type = 2 ∧ toLower rr.name = cut.zoneCut
+    let nsSec : List RR :=
+      if cut.auth ∧ answerEmpty then findSOA v cut.zoneCut
+      else if ¬ cut.auth ∧ ¬ hasNsAnswer then getNs v cut.zoneCut q.qclass
+      else []
+    let present := fun (name : Bytes) (t : Nat) (extra : List AddrGroup) => hasAddr groups name t extra
+    let extra1 := additionalFor v q.qclass a.rrs present []
+    let extra2 := additionalFor v q.qclass nsSec present extra1
+    .reply { rcode := rcode, aa := cut.auth, answer := a.rrs, answerAddrs := groups, ns := nsSec,
+             extra := extra2 }
+
+theorem serve_eq (v : View) (q : Query) :
+    serve v q =
+      match isAuthoritative v q.qname with
+      | .err | .panic => .failedReply
+      | .ok cut =>
+        if ¬ cut.ns ∧ ¬ cut.auth then
+          .reply { rcode := 5, aa := false, answer := [], answerAddrs := [], ns := [], extra := [] }
+        else
+          let dsStep : R Cut :=
+            if ¬ cut.auth ∧ q.qtype = 43 ∧ q.qname.head? ≠ some 0 then
+              match q.qname with
+              | [] => .panic
+              | n :: rest =>
+                match isAuthoritative v (rest.drop n.toNat) with
+                | .ok c2 => .ok ⟨cut.ns, c2.auth, c2.zoneCut⟩
+                | .err => .err
+                | .panic => .panic
+            else .ok cut
+          match dsStep with
+          | .panic => .panic
+          | .err => .failedReply
+          | .ok cut => serveTail v q cut := by
+  rfl
+
+theorem ansOf_rrs (q : List Bytes) (qt : Nat) (rs : List Rec) :
+    (ansOf (pack q) qt rs).rrs = (plainOf q (matchingOf rs qt)).map ofSpecRR := by
+  simp only [ansOf, plainOf, matchingOf, List.map_map]
+  rfl
+
+theorem grp_gen (q : List Bytes) (m t : Nat) (L : List Rec) :
+    (if (L.map fun r => (⟨r.ttl, r.weight, r.rdata⟩ : Cand)).isEmpty then []
+      else [(⟨pack q, t, 1, L.map fun r => (⟨r.ttl, r.weight, r.rdata⟩ : Cand), m⟩ : AddrGroup)])
+    = (if (L.map fun r => (r.ttl, r.weight, r.rdata)).isEmpty then []
+       else [(⟨q, t, 1, L.map fun r => (r.ttl, r.weight, r.rdata), m⟩ : OutAddrs)]).map ofSpecGroup := by
+  cases L with
+  | nil => rfl
+  | cons a L => simp [ofSpecGroup]
+
+theorem grp_a4 (q : List Bytes) (qt m : Nat) (rs : List Rec) :
+    (if (ansOf (pack q) qt rs).a4.isEmpty then [] else [(⟨pack q, 1, 1, (ansOf (pack q) qt rs).a4, m⟩ : AddrGroup)])
+      = (grpOf q m (matchingOf rs qt) 1).map ofSpecGroup :=
+  grp_gen q m 1 ((rs.filter (matchQ qt)).filter fun r => decide (r.type = 1))
+
+theorem grp_a6 (q : List Bytes) (qt m : Nat) (rs : List Rec) :
+    (if (ansOf (pack q) qt rs).a6.isEmpty then [] else [(⟨pack q, 28, 1, (ansOf (pack q) qt rs).a6, m⟩ : AddrGroup)])
+      = (grpOf q m (matchingOf rs qt) 28).map ofSpecGroup :=
+  grp_gen q m 28 ((rs.filter (matchQ qt)).filter fun r => decide (r.type = 28))
+
+theorem served_ofSpec (gs : List OutAddrs) :
+    ((gs.map ofSpecGroup).any fun g => g.cands.any fun c => decide (c.weight > 0)) = gs.any servedS := by
+  simp [List.any_map, ofSpecGroup, Function.comp_def]
+  rfl
+
+/-- the model's additional section, given the other sections -/
+def modelExtra (v : View) (qc : Nat) (answer : List RR) (groups : List AddrGroup) (ns : List RR) :
+    List AddrGroup :=
+  additionalFor v qc ns (fun name t extra => hasAddr groups name t extra)
+    (additionalFor v qc answer (fun name t extra => hasAddr groups name t extra) [])
+
+theorem length_lt_pack (ls : List Bytes) : ls.length < (pack ls).length := by
+  induction ls with
+  | nil => simp [pack]
+  | cons a t ih => rw [pack_cons]; simp only [List.length_cons, List.length_append]; omega
+
+theorem serveTail_nonauth (b : Backend) (hb : b ≠ .rdbV2) (s : Store) (recs : List Rec) (l : Bytes)
+    (h0 : RepresentsAt s recs [0, 0]) (hl : RepresentsAt s recs l) (hok : ∀ r ∈ recs, RecOK r)
+    (hns : NsParse recs) (q : List Bytes) (qt qc m : Nat) (c : List Bytes) (hc : NameOK c) :
+    serveTail ⟨b, s, l⟩ ⟨pack q, pack q, qt, qc, m⟩ ⟨true, false, pack c⟩ =
+      .reply { rcode := 0, aa := false, answer := [], answerAddrs := [],
+               ns := (nsOf (viewSort l recs) l qc c).map ofSpecRR,
+               extra := modelExtra ⟨b, s, l⟩ qc [] [] ((nsOf (viewSort l recs) l qc c).map ofSpecRR) } := by
+  unfold serveTail
+  have hne : (pack c).isEmpty = false := by
+    cases h : pack c with
+    | nil => exact absurd h (pack_ne_nil c)
+    | cons _ _ => rfl
+  simp only [hne, Bool.false_eq_true, ↓reduceIte]
+  have hgn : getNs ⟨b, s, l⟩ (pack c) qc = (nsOf (viewSort l recs) l qc c).map ofSpecRR := by
+    rw [getNs_v1 b hb s recs l h0 hl hok hns c hc qc, nsOf_viewSort, List.map_map]
+    rfl
+  simp [hgn, modelExtra]
+
+theorem findSOA_ofSpec (b : Backend) (hb : b ≠ .rdbV2) (s : Store) (recs : List Rec) (l : Bytes)
+    (h0 : RepresentsAt s recs [0, 0]) (hl : RepresentsAt s recs l) (hok : ∀ r ∈ recs, RecOK r)
+    (c : List Bytes) (hc : NameOK c) :
+    findSOA ⟨b, s, l⟩ (pack c) = (soaOf (viewSort l recs) l c).map ofSpecRR := by
+  rw [findSOA_v1 b hb s recs l h0 hl hok c hc, soaOf_viewSort]
+  cases (visRecs recs l c).find? soaP <;> rfl
+
+theorem serveTail_auth (b : Backend) (hb : b ≠ .rdbV2) (s : Store) (recs : List Rec) (l : Bytes)
+    (h0 : RepresentsAt s recs [0, 0]) (hl : RepresentsAt s recs l) (hok : ∀ r ∈ recs, RecOK r)
+    (q : List Bytes) (hq : NameOK q) (qt qc m : Nat) (c : List Bytes) (hc : NameOK c) :
+    serveTail ⟨b, s, l⟩ ⟨pack q, pack q, qt, qc, m⟩ ⟨true, true, pack c⟩ =
+      .reply {
+        rcode := (answerAt (viewSort l recs) l q qt qc m c true True).rcode, aa := true,
+        answer := (answerAt (viewSort l recs) l q qt qc m c true True).answer.map ofSpecRR,
+        answerAddrs := (answerAt (viewSort l recs) l q qt qc m c true True).answerAddrs.map ofSpecGroup,
+        ns := (answerAt (viewSort l recs) l q qt qc m c true True).authority.map ofSpecRR,
+        extra := modelExtra ⟨b, s, l⟩ qc
+          ((answerAt (viewSort l recs) l q qt qc m c true True).answer.map ofSpecRR)
+          ((answerAt (viewSort l recs) l q qt qc m c true True).answerAddrs.map ofSpecGroup)
+          ((answerAt (viewSort l recs) l q qt qc m c true True).authority.map ofSpecRR) } := by
+  unfold serveTail
+  have hne : (pack c).isEmpty = false := by
+    cases h : pack c with
+    | nil => exact absurd h (pack_ne_nil c)
+    | cons _ _ => rfl
+  have hv : (⟨b, s, l⟩ : View).v2 = false := by simp [View.v2, hb]
+  simp only [hne, hv, Bool.false_eq_true, ↓reduceIte]
+  rw [findAnswer_recordsFor b s recs l h0 hl hok c hc.1 (pack q) qt q hq ((pack q).length + 1)
+    (Nat.lt_succ_of_lt (length_lt_pack q))]
+  simp only [ansOf_rrs, grp_a4, grp_a6, findSOA_ofSpec b hb s recs l h0 hl hok c hc, ← List.map_append,
+    served_ofSpec]
+  unfold answerAt modelExtra
+  simp only [↓reduceIte]
+  generalize recordsFor (viewSort l recs) l q c = rs
+  cases rs with
+  | nil =>
+    simp [matchingOf, plainOf, grpOf, ansOf]
+  | cons r0 rs' =>
+    have hf : (ansOf (pack q) qt (r0 :: rs')).recordFound = true := rfl
+    rw [hf]
+    simp [apply_ite (List.map ofSpecRR)]
+
+/-- the model response determined by a spec answer: every section but the additional one is the
+spec's; the additional section is what the model computes from those sections -/
+def respOf (v : View) (qc : Nat) (A : Answer) : Response :=
+  { rcode := A.rcode, aa := A.aa, answer := A.answer.map ofSpecRR,
+    answerAddrs := A.answerAddrs.map ofSpecGroup, ns := A.authority.map ofSpecRR,
+    extra := modelExtra v qc (A.answer.map ofSpecRR) (A.answerAddrs.map ofSpecGroup)
+      (A.authority.map ofSpecRR) }
+
+/-- explicit well-formedness of the declared records -/
+def WellFormed (recs : List Rec) : Prop := (∀ r ∈ recs, RecOK r) ∧ SoaHasNs recs ∧ NsParse recs
+
+instance (recs : List Rec) : Decidable (WellFormed recs) := by unfold WellFormed; infer_instance
+
+theorem serveTail_refines (b : Backend) (hb : b ≠ .rdbV2) (s : Store) (recs : List Rec) (l : Bytes)
+    (h0 : RepresentsAt s recs [0, 0]) (hl : RepresentsAt s recs l) (hwf : WellFormed recs)
+    (q : List Bytes) (hq : NameOK q) (qt qc m : Nat) (c : List Bytes) (hc : NameOK c) (auth : Bool) :
+    serveTail ⟨b, s, l⟩ ⟨pack q, pack q, qt, qc, m⟩ ⟨true, auth, pack c⟩ =
+      .reply (respOf ⟨b, s, l⟩ qc (answerAt (viewSort l recs) l q qt qc m c auth True)) := by
+  cases auth with
+  | true => exact serveTail_auth b hb s recs l h0 hl hwf.1 q hq qt qc m c hc
+  | false =>
+    rw [serveTail_nonauth b hb s recs l h0 hl hwf.1 hwf.2.2 q qt qc m c hc]
+    simp [respOf, answerAt, matchingOf, plainOf, grpOf]
+
+theorem head_pack (q : List Bytes) (hq : NameOK q) : (pack q).head? = some 0 ↔ q = [] := by
+  cases q with
+  | nil => simp [pack]
+  | cons lab rest =>
+    rw [pack_cons]
+    simp only [List.head?_cons, Option.some.injEq, reduceCtorEq, iff_false]
+    exact hq.head.len_byte.2
+
+theorem cutOf_nameOK (recs : List Rec) (l : Bytes) (q c : List Bytes) (hq : NameOK q)
+    (h : cutOf recs l q = some c) : NameOK c :=
+  hq.ancestor (List.mem_of_find?_eq_some h)
+
+theorem isAuthoritative_v1 (b : Backend) (hb : b ≠ .rdbV2) (s : Store) (recs : List Rec) (l : Bytes)
+    (h0 : RepresentsAt s recs [0, 0]) (hl : RepresentsAt s recs l) (hwf : WellFormed recs)
+    (q : List Bytes) (hq : NameOK q) :
+    isAuthoritative ⟨b, s, l⟩ (pack q) =
+      .ok (match cutOf recs l q with
+           | some c => ⟨true, hasT recs l c 6, pack c⟩
+           | none => ⟨false, false, [0]⟩) := by
+  have hv : (⟨b, s, l⟩ : View).v2 = false := by simp [View.v2, hb]
+  unfold isAuthoritative
+  rw [hv]
+  simp only [Bool.false_eq_true, ↓reduceIte]
+  exact cut_walk b s recs l h0 hl hwf.1 hwf.2.1 q hq _ (Nat.lt_succ_of_lt (length_lt_pack q))
+
+
+theorem respOf_congr (v : View) (qc : Nat) {A B : Answer} (h : A = B) : respOf v qc A = respOf v qc B := by
+  rw [h]
+
+/-- `serve` on a v1-layout store, all sections but the additional one resolved to the spec -/
+theorem serve_v1_core (b : Backend) (hb : b ≠ .rdbV2) (s : Store) (recs : List Rec) (l : Bytes)
+    (h0 : RepresentsAt s recs [0, 0]) (hl : RepresentsAt s recs l) (hwf : WellFormed recs)
+    (q : List Bytes) (hq : NameOK q) (qt qc m : Nat) (maps : List MapDecl) (subnets : List SubnetDecl) :
+    serve ⟨b, s, l⟩ ⟨pack q, pack q, qt, qc, m⟩ =
+      .reply (respOf ⟨b, s, l⟩ qc (Spec.answer ⟨viewSort l recs, maps, subnets⟩ q qt qc m l)) := by
+  rw [serve_eq, answer_eq]
+  simp only [cutOf_viewSort, cutAuth_viewSort]
+  rw [isAuthoritative_v1 b hb s recs l h0 hl hwf q hq]
+  cases hcq : cutOf recs l q with
+  | none =>
+    simp only [Bool.false_eq_true, not_false_eq_true, and_self, ↓reduceIte]
+    rfl
+  | some cut0 =>
+    have hc0 := cutOf_nameOK recs l q cut0 hq hcq
+    simp only [not_true_eq_false, false_and, ↓reduceIte]
+    by_cases hds : ¬ hasT recs l cut0 6 = true ∧ qt = 43 ∧ (pack q).head? ≠ some 0
+    · rw [if_pos hds]
+      cases q with
+      | nil => exact absurd ((head_pack [] hq).mpr rfl) hds.2.2
+      | cons lab rest =>
+        have hspec : ¬ hasT recs l cut0 6 = true ∧ qt = 43 ∧ (lab :: rest) ≠ [] := ⟨hds.1, hds.2.1, by simp⟩
+        rw [pack_cons]
+        simp only []
+        rw [(pack_cons_drop lab rest hq.head).1, isAuthoritative_v1 b hb s recs l h0 hl hwf rest hq.tail]
+        unfold cutAuth
+        simp only [if_pos hspec, List.drop_succ_cons, List.drop_zero]
+        cases hcr : cutOf recs l rest with
+        | none =>
+          simp only []
+          have hroot : hasT recs l [] 2 = false := by
+            unfold cutOf at hcr
+            rw [List.find?_eq_none] at hcr
+            have := hcr [] (by
+              clear hcr hq hds hspec hcq
+              induction rest with
+              | nil => simp [Spec.ancestorsOrSelf]
+              | cons a t ih => simp [Spec.ancestorsOrSelf, ih])
+            simpa using this
+          have hnsroot : nsOf (viewSort l recs) l qc [] = [] := by
+            rw [nsOf_viewSort]
+            have : (visRecs recs l []).filter nsP = [] := by
+              rw [List.filter_eq_nil_iff]
+              intro r hr hp
+              rw [hasT_eq_anyT] at hroot
+              unfold anyT at hroot
+              rw [List.any_eq_false] at hroot
+              exact hroot r hr hp
+            rw [this]; rfl
+          have := serveTail_refines b hb s recs l h0 hl hwf (lab :: rest) hq qt qc m [] nameOK_nil false
+          rw [pack_cons, pack_nil] at this
+          rw [this]
+          congr 1
+          apply respOf_congr
+          simp [answerAt, matchingOf, plainOf, grpOf, hnsroot]
+        | some c =>
+          simp only []
+          have hc := cutOf_nameOK recs l rest c hq.tail hcr
+          have := serveTail_refines b hb s recs l h0 hl hwf (lab :: rest) hq qt qc m c hc (hasT recs l c 6)
+          rw [pack_cons] at this
+          rw [this]
+    · rw [if_neg hds]
+      simp only []
+      have hspec : ¬ (¬ hasT recs l cut0 6 = true ∧ qt = 43 ∧ q ≠ []) := by
+        intro h
+        exact hds ⟨h.1, h.2.1, fun hh => h.2.2 ((head_pack q hq).mp hh)⟩
+      unfold cutAuth
+      simp only [if_neg hspec]
+      rw [serveTail_refines b hb s recs l h0 hl hwf q hq qt qc m cut0 hc0 (hasT recs l cut0 6)]
+
+/-! ### the additional section -/
+
+/-- the name an answer / authority record asks addresses for, as written in its rdata -/
+def rawTarget (rr : OutRR) : Option (List Bytes) :=
+  if rr.type = 2 then nameLabels rr.rdata
+  else if rr.type = 15 then nameLabels (rr.rdata.drop 2)
+  else if rr.type = 65 then some rr.owner
+  else none
+
+theorem additionalTarget_ofSpec (rr : OutRR) :
+    additionalTarget (ofSpecRR rr) = (rawTarget rr).map pack := by
+  unfold additionalTarget rawTarget ofSpecRR nameAt nameLabels
+  simp only []
+  by_cases h2 : rr.type = 2
+  · rw [if_pos h2, if_pos h2]
+  · rw [if_neg h2, if_neg h2]
+    by_cases h15 : rr.type = 15
+    · rw [if_pos h15, if_pos h15]
+    · rw [if_neg h15, if_neg h15]
+      by_cases h65 : rr.type = 65
+      · rw [if_pos h65, if_pos h65]; rfl
+      · rw [if_neg h65, if_neg h65]; rfl
+
+theorem lowerByte_small (n : UInt8) (h : n.toNat < 64) : lowerByte n = n := by
+  unfold lowerByte
+  rw [if_neg (by omega)]
+
+theorem toLower_pack (t : List Bytes) (h : ∀ lab ∈ t, LabelOK lab) : toLower (pack t) = pack t := by
+  induction t with
+  | nil => decide
+  | cons lab rest ih =>
+    have hl := h lab (by simp)
+    rw [pack_cons]
+    unfold toLower at ih ⊢
+    rw [List.map_cons, List.map_append, ih (fun x hx => h x (List.mem_cons_of_mem _ hx))]
+    have h1 : lowerByte (UInt8.ofNat lab.length) = UInt8.ofNat lab.length :=
+      lowerByte_small _ (by rw [hl.len_byte.1]; exact hl.2.1)
+    have h2 : lab.map lowerByte = lab := hl.2.2
+    rw [h1, h2]
+
+theorem map_toLower_id (t : List Bytes) (h : ∀ lab ∈ t, LabelOK lab) : t.map toLower = t := by
+  induction t with
+  | nil => rfl
+  | cons lab rest ih =>
+    rw [List.map_cons, (h lab (by simp)).2.2, ih (fun x hx => h x (List.mem_cons_of_mem _ hx))]
+
+theorem parsed_rows (rs : List Rec) (h : ∀ r ∈ rs, RecOK r) :
+    ((rs.map rowOfRec).filterMap fun row =>
+      match extractRR row false with
+      | .row r => some r
+      | _ => none) = (rs.filter fun r => decide (r.wild = false)).map rowFields := by
+  induction rs with
+  | nil => rfl
+  | cons r rs ih =>
+    rw [List.map_cons, List.filterMap_cons, extractRR_rowOfRec r (h r (by simp)),
+      ih (fun x hx => h x (List.mem_cons_of_mem _ hx))]
+    cases hw : r.wild with
+    | true => simp [hw]
+    | false => simp [hw]
+
+
+/-- one step of `AdditionalSectionForRecords` -/
+def stepX (v : View) (cls : Nat) (present : Bytes → Nat → List AddrGroup → Bool)
+    (acc : List AddrGroup) (rr : RR) : List AddrGroup :=
+  match additionalTarget rr with
+  | none => acc
+  | some name =>
+      let want4 := ¬ present name 1 acc
+      let want6 := ¬ present name 28 acc
+      if ¬ (want4 ∨ want6) then acc
+      else
+        let rows := rowsOf v (toLower name)
+        let parsed := rows.filterMap fun row => match extractRR row false with
+          | .row r => some r
+          | _ => none
+        let c4 := (parsed.filter (·.qtype = 1)).map fun r => (⟨r.ttl, r.weight, r.rdata⟩ : Cand)
+        let c6 := (parsed.filter (·.qtype = 28)).map fun r => (⟨r.ttl, r.weight, r.rdata⟩ : Cand)
+        acc ++ (if want6 ∧ ¬ c6.isEmpty then [⟨name, 28, cls, c6, 1⟩] else [])
+            ++ (if want4 ∧ ¬ c4.isEmpty then [⟨name, 1, cls, c4, 1⟩] else [])
+
+theorem additionalFor_eq (v : View) (cls : Nat) (records : List RR)
+    (present : Bytes → Nat → List AddrGroup → Bool) (acc : List AddrGroup) :
+    additionalFor v cls records present acc = records.foldl (stepX v cls present) acc := rfl
+
+/-- the groups the spec adds for one target -/
+def addGroups (recs : List Rec) (l : Bytes) (qclass : Nat) (groups : List OutAddrs) (tname : List Bytes) :
+    List OutAddrs :=
+  let alreadyHas (t : Nat) : Bool := groups.any fun g => g.owner = tname ∧ g.type = t ∧ servedS g
+  (if ¬ alreadyHas 28 ∧ ¬ (candS recs l tname 28).isEmpty then [⟨tname, 28, qclass, candS recs l tname 28, 1⟩] else [])
+  ++ (if ¬ alreadyHas 1 ∧ ¬ (candS recs l tname 1).isEmpty then [⟨tname, 1, qclass, candS recs l tname 1, 1⟩] else [])
+
+theorem additionalOf_eq (recs : List Rec) (l : Bytes) (qclass : Nat) (groups : List OutAddrs)
+    (targets : List (List Bytes)) :
+    additionalOf recs l qclass groups targets = targets.eraseDups.flatMap (addGroups recs l qclass groups) := rfl
+
+theorem candS_viewSort (recs : List Rec) (l : Bytes) (tn : List Bytes) (t : Nat) :
+    candS (viewSort l recs) l tn t =
+      ((visRecs recs l tn).filter fun r => decide (r.wild = false ∧ r.type = t)).map fun r =>
+        (r.ttl, r.weight, r.rdata) := by
+  unfold candS
+  rw [filter_viewSort recs l tn _ (fun r => decide (r.wild = false ∧ r.type = t))
+    (by intro r; simp [Bool.decide_and, Bool.and_assoc])]
+
+theorem model_cands (rs : List Rec) (t : Nat) (ht : t = 1 ∨ t = 28) :
+    ((((rs.filter fun r => decide (r.wild = false)).map rowFields).filter fun r => decide (r.qtype = t)).map
+        fun r => (⟨r.ttl, r.weight, r.rdata⟩ : Cand))
+      = ((rs.filter fun r => decide (r.wild = false ∧ r.type = t)).map fun r => (r.ttl, r.weight, r.rdata)).map
+          fun c => (⟨c.1, c.2.1, c.2.2⟩ : Cand) := by
+  induction rs with
+  | nil => rfl
+  | cons r rs ih =>
+    cases hw : r.wild with
+    | true => simpa [hw] using ih
+    | false =>
+      by_cases h : r.type = t
+      · have ha : r.type = 1 ∨ r.type = 28 := h ▸ ht
+        simp only [List.filter_cons, hw, h, decide_true, ↓reduceIte, List.map_cons, rowFields, and_self]
+        simp only [h] at ha
+        simp only [ha, ↓reduceIte, List.cons.injEq, true_and]
+        simpa [rowFields] using ih
+      · simp only [List.filter_cons, hw, h, decide_true, ↓reduceIte, List.map_cons, rowFields,
+          and_false, decide_false, Bool.false_eq_true]
+        simpa [rowFields] using ih
+
+theorem hasAddr_target (G : List OutAddrs) (hG : ∀ g ∈ G, ∀ lab ∈ g.owner, LabelOK lab)
+    (tn : List Bytes) (hn : NameOK tn) (t : Nat) (acc : List AddrGroup) (hacc : ∀ g ∈ acc, g.name ≠ pack tn) :
+    hasAddr (G.map ofSpecGroup) (pack tn) t acc =
+      G.any fun g => decide (g.owner = tn ∧ g.type = t ∧ servedS g = true) := by
+  unfold hasAddr
+  rw [List.any_append]
+  have h2 : (acc.any fun g => decide (g.name = pack tn ∧ g.type = t ∧ (g.cands.any fun c => decide (c.weight > 0)) = true)) = false := by
+    rw [List.any_eq_false]
+    intro g hg
+    simp [hacc g hg]
+  rw [h2, Bool.or_false, List.any_map]
+  rw [Bool.eq_iff_iff, List.any_eq_true, List.any_eq_true]
+  have hinj : ∀ g ∈ G, (pack g.owner = pack tn ↔ g.owner = tn) := fun g hg =>
+    ⟨pack_injective _ _ (hG g hg) hn.1, fun h => by rw [h]⟩
+  have hserved : ∀ g : OutAddrs, ((ofSpecGroup g).cands.any fun c => decide (c.weight > 0)) = servedS g := by
+    intro g; simp only [ofSpecGroup, servedS, List.any_map]; rfl
+  constructor
+  · rintro ⟨g, hg, hp⟩
+    refine ⟨g, hg, ?_⟩
+    simp only [Function.comp, decide_eq_true_eq] at hp ⊢
+    exact ⟨(hinj g hg).mp hp.1, hp.2.1, (hserved g) ▸ hp.2.2⟩
+  · rintro ⟨g, hg, hp⟩
+    refine ⟨g, hg, ?_⟩
+    simp only [Function.comp, decide_eq_true_eq] at hp ⊢
+    exact ⟨(hinj g hg).mpr hp.1, hp.2.1, (hserved g).symm ▸ hp.2.2⟩
+
+theorem stepX_none (v : View) (qc : Nat) (P : Bytes → Nat → List AddrGroup → Bool) (acc : List AddrGroup)
+    (rr : OutRR) (ht : rawTarget rr = none) : stepX v qc P acc (ofSpecRR rr) = acc := by
+  unfold stepX
+  rw [additionalTarget_ofSpec, ht]
+  rfl
+
+theorem stepX_target (b : Backend) (hb : b ≠ .rdbV2) (s : Store) (recs : List Rec) (l : Bytes)
+    (h0 : RepresentsAt s recs [0, 0]) (hl : RepresentsAt s recs l) (hok : ∀ r ∈ recs, RecOK r)
+    (qc : Nat) (G : List OutAddrs) (hG : ∀ g ∈ G, ∀ lab ∈ g.owner, LabelOK lab)
+    (acc : List AddrGroup) (rr : OutRR) (tn : List Bytes) (ht : rawTarget rr = some tn) (hn : NameOK tn)
+    (hacc : ∀ g ∈ acc, g.name ≠ pack tn) :
+    stepX ⟨b, s, l⟩ qc (fun name t extra => hasAddr (G.map ofSpecGroup) name t extra) acc (ofSpecRR rr)
+      = acc ++ (addGroups (viewSort l recs) l qc G tn).map ofSpecGroup := by
+  unfold stepX
+  rw [additionalTarget_ofSpec, ht]
+  simp only [Option.map_some]
+  simp only [hasAddr_target G hG tn hn 1 acc hacc, hasAddr_target G hG tn hn 28 acc hacc,
+    toLower_pack tn hn.1, rowsOf_v1 b hb s recs l h0 hl tn hn, parsed_rows _ (recOK_visRecs hok l tn),
+    model_cands _ 1 (Or.inl rfl), model_cands _ 28 (Or.inr rfl)]
+  unfold addGroups
+  simp only [candS_viewSort]
+  generalize (G.any fun g => decide (g.owner = tn ∧ g.type = 1 ∧ servedS g = true)) = p1
+  generalize (G.any fun g => decide (g.owner = tn ∧ g.type = 28 ∧ servedS g = true)) = p28
+  generalize (((visRecs recs l tn).filter fun r => decide (r.wild = false ∧ r.type = 1)).map fun r =>
+    (r.ttl, r.weight, r.rdata)) = c1
+  generalize (((visRecs recs l tn).filter fun r => decide (r.wild = false ∧ r.type = 28)).map fun r =>
+    (r.ttl, r.weight, r.rdata)) = c28
+  cases p1 <;> cases p28 <;> cases c1 <;> cases c28 <;> simp [ofSpecGroup]
+
+theorem addGroups_owner (recs : List Rec) (l : Bytes) (qc : Nat) (G : List OutAddrs) (tn : List Bytes) :
+    ∀ g ∈ addGroups recs l qc G tn, g.owner = tn := by
+  intro g hg
+  unfold addGroups at hg
+  simp only [List.mem_append] at hg
+  rcases hg with hg | hg
+  · split at hg
+    · simp only [List.mem_singleton] at hg; rw [hg]
+    · cases hg
+  · split at hg
+    · simp only [List.mem_singleton] at hg; rw [hg]
+    · cases hg
+
+theorem fold_additional (b : Backend) (hb : b ≠ .rdbV2) (s : Store) (recs : List Rec) (l : Bytes)
+    (h0 : RepresentsAt s recs [0, 0]) (hl : RepresentsAt s recs l) (hok : ∀ r ∈ recs, RecOK r)
+    (qc : Nat) (G : List OutAddrs) (hG : ∀ g ∈ G, ∀ lab ∈ g.owner, LabelOK lab) :
+    ∀ (rrs : List OutRR) (acc : List AddrGroup),
+      (∀ t ∈ rrs.filterMap rawTarget, NameOK t) → (rrs.filterMap rawTarget).Nodup →
+      (∀ g ∈ acc, ∀ t ∈ rrs.filterMap rawTarget, g.name ≠ pack t) →
+      (rrs.map ofSpecRR).foldl
+          (stepX ⟨b, s, l⟩ qc (fun name t extra => hasAddr (G.map ofSpecGroup) name t extra)) acc
+        = acc ++ ((rrs.filterMap rawTarget).flatMap (addGroups (viewSort l recs) l qc G)).map ofSpecGroup := by
+  intro rrs
+  induction rrs with
+  | nil => intro acc _ _ _; simp
+  | cons rr rrs ih =>
+    intro acc hok' hnd hacc
+    rw [List.map_cons, List.foldl_cons]
+    cases ht : rawTarget rr with
+    | none =>
+      rw [List.filterMap_cons_none ht] at hok' hnd hacc ⊢
+      rw [stepX_none _ _ _ _ _ ht]
+      exact ih acc hok' hnd hacc
+    | some tn =>
+      rw [List.filterMap_cons_some ht] at hok' hnd hacc ⊢
+      have hn : NameOK tn := hok' tn (by simp)
+      rw [stepX_target b hb s recs l h0 hl hok qc G hG acc rr tn ht hn
+        (fun g hg => hacc g hg tn (by simp))]
+      rw [ih _ (fun t h => hok' t (List.mem_cons_of_mem _ h)) (List.nodup_cons.mp hnd).2]
+      · rw [List.flatMap_cons, List.map_append, List.append_assoc]
+      · intro g hg t htm
+        rcases List.mem_append.mp hg with hg | hg
+        · exact hacc g hg t (List.mem_cons_of_mem _ htm)
+        · obtain ⟨g', hg', rfl⟩ := List.mem_map.mp hg
+          have ho := addGroups_owner _ _ _ _ _ g' hg'
+          show pack g'.owner ≠ pack t
+          rw [ho]
+          intro he
+          have := pack_injective _ _ hn.1 (hok' t (List.mem_cons_of_mem _ htm)).1 he
+          exact (List.nodup_cons.mp hnd).1 (this ▸ htm)
+
+theorem eraseDups_nodup {α : Type} [BEq α] [LawfulBEq α] : ∀ (l : List α), l.Nodup → l.eraseDups = l
+  | [], _ => rfl
+  | a :: as, h => by
+    have hn := List.nodup_cons.mp h
+    rw [List.eraseDups_cons]
+    have : as.filter (fun b => !b == a) = as := by
+      rw [List.filter_eq_self]
+      intro x hx
+      simp only [Bool.not_eq_eq_eq_not, Bool.not_true, beq_eq_false_iff_ne, ne_eq]
+      intro he; exact hn.1 (he ▸ hx)
+    rw [this, eraseDups_nodup as hn.2]
+
+theorem filterMap_congr' {α β : Type} {f g : α → Option β} :
+    ∀ {l : List α}, (∀ x ∈ l, f x = g x) → l.filterMap f = l.filterMap g
+  | [], _ => rfl
+  | a :: l, h => by
+    rw [List.filterMap_cons, List.filterMap_cons, h a (by simp),
+      filterMap_congr' (fun x hx => h x (List.mem_cons_of_mem _ hx))]
+
+theorem targetsOf_raw (rrs : List OutRR) (h : ∀ t ∈ rrs.filterMap rawTarget, NameOK t) :
+    targetsOf rrs = rrs.filterMap rawTarget := by
+  unfold targetsOf
+  apply filterMap_congr'
+  intro rr hrr
+  have hok : ∀ t, rawTarget rr = some t → t.map toLower = t := by
+    intro t ht
+    exact map_toLower_id t (h t (List.mem_filterMap.mpr ⟨rr, hrr, ht⟩)).1
+  unfold rawTarget at hok ⊢
+  by_cases h2 : rr.type = 2
+  · rw [if_pos h2] at hok ⊢
+    rw [if_pos h2]
+    cases hx : nameLabels rr.rdata with
+    | none => rfl
+    | some t => rw [Option.map_some, hok t hx]
+  · rw [if_neg h2] at hok ⊢
+    rw [if_neg h2]
+    by_cases h15 : rr.type = 15
+    · rw [if_pos h15] at hok ⊢
+      rw [if_pos h15]
+      cases hx : nameLabels (rr.rdata.drop 2) with
+      | none => rfl
+      | some t => rw [Option.map_some, hok t hx]
+    · rw [if_neg h15, if_neg h15]
+
+/-- the targets of the additional section are storable lower-case names, pairwise distinct -/
+def TargetsOK (rrs : List OutRR) : Prop :=
+  (∀ t ∈ rrs.filterMap rawTarget, NameOK t) ∧ (rrs.filterMap rawTarget).Nodup
+
+theorem modelExtra_refines (b : Backend) (hb : b ≠ .rdbV2) (s : Store) (recs : List Rec) (l : Bytes)
+    (h0 : RepresentsAt s recs [0, 0]) (hl : RepresentsAt s recs l) (hok : ∀ r ∈ recs, RecOK r)
+    (qc : Nat) (G : List OutAddrs) (hG : ∀ g ∈ G, ∀ lab ∈ g.owner, LabelOK lab)
+    (plain authority : List OutRR) (ht : TargetsOK (plain ++ authority)) :
+    modelExtra ⟨b, s, l⟩ qc (plain.map ofSpecRR) (G.map ofSpecGroup) (authority.map ofSpecRR) =
+      (additionalOf (viewSort l recs) l qc G (targetsOf (plain ++ authority))).map ofSpecGroup := by
+  unfold modelExtra
+  rw [additionalFor_eq, additionalFor_eq, ← List.foldl_append, ← List.map_append,
+    fold_additional b hb s recs l h0 hl hok qc G hG (plain ++ authority) [] ht.1 ht.2 (by intro g hg; cases hg),
+    additionalOf_eq, targetsOf_raw _ ht.1, eraseDups_nodup _ ht.2, List.nil_append]
+
+theorem answer_additional (z : Zone) (q : List Bytes) (qt qc m : Nat) (l : Bytes) :
+    (Spec.answer z q qt qc m l).additional =
+      additionalOf z.recs l qc (Spec.answer z q qt qc m l).answerAddrs
+        (targetsOf ((Spec.answer z q qt qc m l).answer ++ (Spec.answer z q qt qc m l).authority)) := by
+  rw [answer_eq]
+  cases cutOf z.recs l q with
+  | none => rfl
+  | some cut0 => rfl
+
+theorem grpOf_owner (q : List Bytes) (m : Nat) (M : List Rec) (t : Nat) :
+    ∀ g ∈ grpOf q m M t, g.owner = q := by
+  intro g hg
+  unfold grpOf at hg
+  simp only [] at hg
+  by_cases h : ((M.filter (·.type = t)).map fun r => (r.ttl, r.weight, r.rdata)).isEmpty = true
+  · rw [if_pos h] at hg; cases hg
+  · rw [if_neg h] at hg
+    simp only [List.mem_singleton] at hg
+    rw [hg]
+
+theorem answer_group_owner (z : Zone) (q : List Bytes) (qt qc m : Nat) (l : Bytes) :
+    ∀ g ∈ (Spec.answer z q qt qc m l).answerAddrs, g.owner = q := by
+  rw [answer_eq]
+  cases cutOf z.recs l q with
+  | none => intro g hg; cases hg
+  | some cut0 =>
+    intro g hg
+    simp only [answerAt, List.mem_append] at hg
+    rcases hg with hg | hg
+    · exact grpOf_owner _ _ _ _ g hg
+    · exact grpOf_owner _ _ _ _ g hg
+
+/-- `serve` on a v1-layout store is `Spec.answer`, all sections -/
+theorem serve_v1_full (b : Backend) (hb : b ≠ .rdbV2) (s : Store) (recs : List Rec) (l : Bytes)
+    (h0 : RepresentsAt s recs [0, 0]) (hl : RepresentsAt s recs l) (hwf : WellFormed recs)
+    (q : List Bytes) (hq : NameOK q) (qt qc m : Nat) (maps : List MapDecl) (subnets : List SubnetDecl)
+    (ht : TargetsOK ((Spec.answer ⟨viewSort l recs, maps, subnets⟩ q qt qc m l).answer ++
+                     (Spec.answer ⟨viewSort l recs, maps, subnets⟩ q qt qc m l).authority)) :
+    serve ⟨b, s, l⟩ ⟨pack q, pack q, qt, qc, m⟩ =
+      .reply (ofSpec (Spec.answer ⟨viewSort l recs, maps, subnets⟩ q qt qc m l)) := by
+  rw [serve_v1_core b hb s recs l h0 hl hwf q hq qt qc m maps subnets]
+  congr 1
+  unfold respOf ofSpec
+  rw [modelExtra_refines b hb s recs l h0 hl hwf.1 qc _
+    (fun g hg lab hlab => hq.1 lab ((answer_group_owner _ q qt qc m l g hg) ▸ hlab)) _ _ ht,
+    answer_additional ⟨viewSort l recs, maps, subnets⟩ q qt qc m l]
+
 end Refinement
 
 end DnsVerif.ServeRefine
